@@ -164,7 +164,10 @@ class Parser:
         return code_line
 
     def process_regex_input(self, data):
-        regex = data.split('"input.regex"')[1].split("=")[1]
+        after_key = data.split('"input.regex"')[1]
+        if "=" not in after_key:
+            return data
+        regex = after_key.split("=")[1]
         index = find_first_unpair_closed_par(regex)
         regex = regex[:index]
         data = data.replace(regex, " lexer_state_regex ")
@@ -175,7 +178,7 @@ class Parser:
     def pre_process_data(self, data):
         data = data.decode("utf-8")
         # todo: not sure how to workaround ',' normal way
-        if "input.regex" in data:
+        if '"input.regex"' in data:
             data = self.process_regex_input(data)
         quote_before = r"((?!\'[\w]*[\\']*[\w]*)"
         quote_after = r"((?![\w]*[\\']*[\w]*\')))"
